@@ -167,7 +167,7 @@ class InterpCore:
         self.kinds: Dict[int, str] = {}
         self.notkinds: Dict[int, List[str]] = {}
         self.elem_notkinds: Dict[str, List[str]] = {}
-        self.aliases: Dict[int, V] = {}
+        self.aliases: Dict[Any, V] = {}
         self.stack: List[Frame] = []
         self.handlers: List[List[Any]] = []
         self.steps = 0
@@ -305,6 +305,8 @@ class InterpCore:
     def resolve(self, v: V) -> V:
         """A symbolic key that a membership test unified with a token of a concrete table."""
         uid = getattr(v, "uid", None)
+        if uid is None and isinstance(v, Term):
+            uid = "T:" + v.key()          # a pure term is identified by its text
         if uid is not None and uid in self.aliases:
             return self.aliases[uid]
         return v
@@ -654,6 +656,11 @@ class InterpCore:
         elif isinstance(target, ast.Subscript):
             recv = self.eval(target.value, fr)
             idx = self.resolve(self.eval(target.slice, fr))
+            if isinstance(recv, DictV) and getattr(self, "split_on_store", False) and isinstance(idx, (Sym, Term)) \
+                    and recv.concrete() and recv.lookup(idx) is None and recv.pairs():
+                # a store under a symbolic key may hit an existing entry: case split exactly as `idx in recv` would
+                self.decide(self.compare("in", idx, recv, st), st)      # type: ignore[attr-defined]
+                idx = self.resolve(idx)
             self.emit("write", st, how="setitem", target=recv, index=idx, value=v, aug=aug)
             if isinstance(recv, DictV):
                 recv.store(idx, v)
